@@ -285,8 +285,11 @@ def work(item):
                         await c.connect("127.0.0.1", 2121)
                         await c.login()
                         try:
-                            code, info = await c.command("SITE x", conv(expected), conv(wait))
-                            res.append((str(code), list(info)))
+                            got = await c.command("SITE x", conv(expected), conv(wait))
+                            if not (isinstance(got, tuple) and len(got) == 2):
+                                res.append(("not-a-reply", [repr(got)]))
+                            else:
+                                res.append((str(got[0]), list(got[1])))
                         except a.StatusCodeError as exc:
                             res.append(("StatusCodeError", [str(x) for x in exc.received_codes]))
                         try:
@@ -499,6 +502,12 @@ def build_items(tier):
         for n in range(0, 4):
             for pre in itertools.product(pres, repeat=n):
                 waits.append((list(pre), final, expected, wait))
+    # the empty mask agrees with every code (no digit to disagree with): a reply is read and handed back
+    for final in ("226", "500", "331"):
+        waits.append(([], final, "", ()))
+        waits.append(([], final, ("",), ()))
+        waits.append((["150"], final, "", "1xx"))
+        waits.append((["150", "125"], final, ("", "2xx"), ("1xx",)))
     for kind_of in ("set", "frozenset", "list"):
         for wait, pres in (("1xx", ["150", "125"]), (("1xx", "426"), ["150", "426"])):
             for n in range(0, 3):
